@@ -148,7 +148,11 @@ theorem pushDefaultK_small : ∀ (b : B) (k : Nat) (b' : B), pushDefaultK b k = 
     simp only [pushDefaultK, ctx_ok] at h
     split at h
     · simp [fail] at h
+    split at h
+    · simp [fail] at h
     · obtain ⟨fs', h1, h2⟩ := (bind_ok _ _ _).1 h
+      split at h2
+      · simp [fail] at h2
       cases h2
       simp only [ViewSmall]
       exact pushDefaultKAt_small _ _ k fs' h1
